@@ -189,6 +189,8 @@ class Ref(object):
             return ["exc", ["errfut", s[1]]]
         if tag == "lazy":
             return ["ok", ["lazy", s[2]]] if s[1] == "ok" else ["exc", ["lazy", s[2]]]
+        if tag == "slazy":
+            return ["ok", ["slazy", s[2]]] if s[1] == "ok" else ["exc", ["slazy", s[2]]]
         if tag == "bad":
             return ["exc", "TypeError"]
         if tag == "afn":
